@@ -88,7 +88,11 @@ func main() {
 			case "comp":
 				runComp(emit, f[2], f[3])
 			case "hook":
-				runHook(emit, f[3])
+				if f[2] == "K" || f[2] == "Q" {
+					runHookNs(emit, f[2], f[3])
+				} else {
+					runHook(emit, f[3])
+				}
 			case "cfg":
 				runCfg(emit, f[3])
 			case "shut":
@@ -166,7 +170,14 @@ func main() {
 				return
 			}
 			if suite == "hook" {
-				runHook(emit, genHookScript(root.Fork(uint64(k))))
+				switch k % 5 {
+				case 3:
+					runHookNs(emit, "K", genHookNsScript(root.Fork(uint64(k)), false))
+				case 4:
+					runHookNs(emit, "Q", genHookNsScript(root.Fork(uint64(k)), true))
+				default:
+					runHook(emit, genHookScript(root.Fork(uint64(k))))
+				}
 			} else {
 				runCfg(emit, genCfgCase(root.Fork(uint64(k))))
 			}
